@@ -1,7 +1,7 @@
 """Unit `global_cache`: GlobalCache<R> (cachelito-core/src/global_cache.rs) under the sequential projection
 (R1: locks erased, R2: receiver splitting) with the helper functions of utils.rs it calls."""
 from extract.rules import R, R4, R5, R1_TYPES
-from contracts.units.engine_common import COMMON
+from contracts.units.engine_common import (COMMON, wf_pre, get_ensures, incr_ensures, evict_requires, evict_ensures, insert_ensures, CFG_FRAME)
 from contracts.units import utils as U
 
 G = 'cachelito-core/src/global_cache.rs'
@@ -38,84 +38,28 @@ pub fn enum_collect<'a>(o: &'a VecDeque<String>) -> (r: Vec<(usize, &'a String)>
 { unimplemented!() }
 ''')
 
-WF_PRE = [('wf', 'wf(old(self).map@, old(self).order@)')]
-CFG_FRAME = ('cfg_frame', ['C01', 'C04'],
-             'final(self).limit == old(self).limit && final(self).max_memory == old(self).max_memory && final(self).policy == old(self).policy '
-             '&& final(self).ttl == old(self).ttl && final(self).frequency_weight == old(self).frequency_weight')
+M = 'map'
+
+
+def fn(name, **kw):
+    d = dict(kind='fn', file=G, impl=IMPL, name=name, label='GlobalCache::' + name, engine='GlobalCache')
+    d.update(kw)
+    return d
+
 
 UNIT = dict(
     name='global_cache',
     items=COMMON + UTILS_FNS + [SCORE_STUBS,
         dict(kind='struct', file=G, name='GlobalCache', rules=R1_TYPES),
-        # ------------------------------------------------------------------ get
-        dict(kind='fn', file=G, impl=IMPL, name='get', label='GlobalCache::get', engine='GlobalCache', ret='res',
-             requires=WF_PRE,
-             ensures=[
-                 CFG_FRAME,
-                 ('post_wf', ['C04', 'C06', 'C13'], 'wf(final(self).map@, final(self).order@)'),
-                 ('never_serves_expired', ['C06'], 'res is Some ==> old(self).map@.contains_key(s2s(key)) && !expired(old(self).map@[s2s(key)], old(self).ttl)'),
-                 ('value_of_key', ['C01'], 'res is Some ==> cloned(old(self).map@[s2s(key)].value, res->Some_0)'),
-                 ('serves_unexpired', ['C03', 'C06'], 'old(self).map@.contains_key(s2s(key)) && !expired(old(self).map@[s2s(key)], old(self).ttl) ==> res is Some'),
-                 ('purges_expired', ['C06', 'C04'], 'old(self).map@.contains_key(s2s(key)) && expired(old(self).map@[s2s(key)], old(self).ttl) ==> '
-                  'final(self).map@ == old(self).map@.remove(s2s(key)) && final(self).order@ == rm1(old(self).order@, s2s(key))'),
-                 ('miss_changes_nothing', ['C03', 'C04'], '!old(self).map@.contains_key(s2s(key)) ==> final(self).map@ == old(self).map@ && final(self).order@ == old(self).order@'),
-                 ('hit_keeps_entries', ['C01', 'C03'], 'res is Some ==> final(self).map@.dom() == old(self).map@.dom() '
-                  '&& forall|x: String| x != s2s(key) && old(self).map@.contains_key(x) ==> #[trigger] final(self).map@[x] == old(self).map@[x]'),
-                 ('hit_keeps_value', ['C01', 'C06'], 'res is Some ==> final(self).map@[s2s(key)].value == old(self).map@[s2s(key)].value '
-                  '&& final(self).map@[s2s(key)].inserted_at == old(self).map@[s2s(key)].inserted_at'),
-                 ('hit_counts', ['C08'], 'res is Some ==> final(self).map@[s2s(key)].frequency == '
-                  '(if hit_counts(old(self).policy) { bump(old(self).map@[s2s(key)].frequency) } else { old(self).map@[s2s(key)].frequency })'),
-                 ('hit_recency', ['C07', 'C08'], 'res is Some ==> final(self).order@ == (if hit_touches(old(self).policy) { touch(old(self).order@, s2s(key)) } else { old(self).order@ })'),
-                 ('one_counter', ['C15'], 'final(self).stats.hits.v == (if res is Some { old(self).stats.hits.v.wrapping_add(1) } else { old(self).stats.hits.v }) '
-                  '&& final(self).stats.misses.v == (if res is Some { old(self).stats.misses.v } else { old(self).stats.misses.v.wrapping_add(1) })'),
-             ]),
-        dict(kind='fn', file=G, impl=IMPL, name='increment_frequency', label='GlobalCache::increment_frequency', engine='GlobalCache',
-             ensures=[
-                 CFG_FRAME,
-                 ('frame', ['C01', 'C07'], 'final(self).order@ == old(self).order@ && final(self).stats == old(self).stats'),
-                 ('absent_noop', ['C04'], '!old(self).map@.contains_key(s2s(key)) ==> final(self).map@ == old(self).map@'),
-                 ('counts', ['C08'], 'old(self).map@.contains_key(s2s(key)) ==> final(self).map@.dom() == old(self).map@.dom() '
-                  '&& final(self).map@[s2s(key)].frequency == bump(old(self).map@[s2s(key)].frequency) '
-                  '&& final(self).map@[s2s(key)].value == old(self).map@[s2s(key)].value '
-                  '&& final(self).map@[s2s(key)].inserted_at == old(self).map@[s2s(key)].inserted_at '
-                  '&& forall|x: String| x != s2s(key) && old(self).map@.contains_key(x) ==> #[trigger] final(self).map@[x] == old(self).map@[x]'),
-             ]),
-        # ------------------------------------------------------------------ entry-limit eviction (R2: split receiver)
-        dict(kind='fn', file=G, impl=IMPL, name='handle_entry_limit_eviction', label='GlobalCache::handle_entry_limit_eviction',
-             engine='GlobalCache', split_self=True, rules=R4 + R5 + R1_TYPES,
-             requires=[('wf', 'wf(old(map)@, old(o)@)'),
-                       # call sites: the entry just stored sits at the back of the queue with zero hits
-                       ('newcomer_unsaturated', 'old(o)@.len() > 0 ==> old(map)@.contains_key(old(o)@.last()) && old(map)@[old(o)@.last()].frequency < u64::MAX'),
-                       # implied by wf; stated so that the terms are available to the solver
-                       ('front_stored', 'old(o)@.len() > 0 ==> old(map)@.contains_key(old(o)@[0]) && old(o)@.contains(old(o)@[0])')],
-             ensures=[
-                 ('post_wf', ['C04'], 'wf(final(map)@, final(o)@)'),
-                 ('no_overflow_noop', ['C04', 'C03'], '(limit is None || old(o)@.len() <= limit->Some_0) ==> final(map)@ == old(map)@ && final(o)@ == old(o)@'),
-                 ('overflow_one_victim', ['C04', 'C07', 'C08'], '(limit is Some && old(o)@.len() > limit->Some_0) ==> '
-                  'exists|v: String| sync_victim_ok(policy, old(map)@, old(o)@, v) && final(map)@ == #[trigger] old(map)@.remove(v) && final(o)@ == rm1(old(o)@, v)'),
-             ],
-             loops={0: dict(
-                 invariant_except_break=[('nothing_popped', 'map_write@ == old(map)@ && o@ == old(o)@')],
-                 invariant=[('wf0', 'wf(old(map)@, old(o)@) && old(o)@.len() > 0')],
-                 ensures=[('front_evicted', 'evicted(old(map)@, old(o)@, map_write@, o@, old(o)@[0])')],
-                 decreases='o@.len()')},
-             ),
-        # ------------------------------------------------------------------ insert
-        dict(kind='fn', file=G, impl=IMPL, name='insert', label='GlobalCache::insert', engine='GlobalCache', rules=R4,
-             requires=WF_PRE,
-             ensures=[
-                 CFG_FRAME,
-                 ('post_wf', ['C04', 'C13'], 'wf(final(self).map@, final(self).order@)'),
-                 ('stats_frame', ['C15'], 'final(self).stats == old(self).stats'),
-                 ('fits_exact', ['C04', 'C03'], '(old(self).limit is None || touch(old(self).order@, s2s(key)).len() <= old(self).limit->Some_0) ==> '
-                  'final(self).order@ == touch(old(self).order@, s2s(key)) && final(self).map@.dom() == old(self).map@.dom().insert(s2s(key))'),
-                 ('overflow_one_victim', ['C04', 'C07', 'C08'], '(old(self).limit is Some && touch(old(self).order@, s2s(key)).len() > old(self).limit->Some_0) ==> '
-                  'exists|v: String, e: CacheEntry<R>| e.value == value && e.frequency == 0 '
-                  '&& sync_victim_ok(old(self).policy, old(self).map@.insert(s2s(key), e), touch(old(self).order@, s2s(key)), v) '
-                  '&& final(self).map@ == #[trigger] old(self).map@.insert(s2s(key), e).remove(v) && final(self).order@ == rm1(touch(old(self).order@, s2s(key)), v)'),
-                 ('survivors_unchanged', ['C01', 'C13'], 'forall|x: String| x != s2s(key) && #[trigger] final(self).map@.contains_key(x) ==> old(self).map@.contains_key(x) && final(self).map@[x] == old(self).map@[x]'),
-                 ('last_store_wins', ['C01', 'C11'], 'final(self).map@.contains_key(s2s(key)) ==> final(self).map@[s2s(key)].value == value && final(self).map@[s2s(key)].frequency == 0'),
-                 ('bound', ['C04'], '(old(self).limit is Some && old(self).limit->Some_0 >= 1 && old(self).order@.len() <= old(self).limit->Some_0) ==> final(self).order@.len() <= old(self).limit->Some_0'),
-             ]),
+        fn('get', ret='res', requires=wf_pre(M), ensures=get_ensures(M)),
+        fn('increment_frequency', ensures=incr_ensures(M)),
+        fn('handle_entry_limit_eviction', split_self=True, rules=R4 + R5 + R1_TYPES,
+           requires=evict_requires('map', 'o'), ensures=evict_ensures('map', 'o'),
+           loops={0: dict(
+               invariant_except_break=[('nothing_popped', 'map_write@ == old(map)@ && o@ == old(o)@')],
+               invariant=[('wf0', 'wf(old(map)@, old(o)@) && old(o)@.len() > 0')],
+               ensures=[('front_evicted', 'evicted(old(map)@, old(o)@, map_write@, o@, old(o)@[0])')],
+               decreases='o@.len()')}),
+        fn('insert', rules=R4, requires=wf_pre(M), ensures=insert_ensures(M)),
     ],
 )
